@@ -467,6 +467,15 @@ def _auto_discharge(cg: CG, s: RaiseSite) -> Optional[str]:
     if s.kind == "subscript" and isinstance(n, ast.Subscript):
         facts = facts_at(n, fn)
         idx = n.slice
+        # str.split / rsplit return at least one piece, partition / rpartition exactly three
+        if isinstance(n.value, ast.Call) and isinstance(n.value.func, ast.Attribute) and isinstance(idx, (ast.Constant, ast.UnaryOp)):
+            from .guards import _const_int as _ci0
+
+            k0_ = _ci0(idx)
+            if n.value.func.attr in ("split", "rsplit", "splitlines") and k0_ in (0, -1) and n.value.func.attr != "splitlines":
+                return "str.split() returns at least one piece"
+            if n.value.func.attr in ("partition", "rpartition") and k0_ in (0, 1, 2, -1, -2, -3):
+                return "str.partition() returns exactly three pieces"
         if s.exc in ("KeyError", "LookupError") and known_key_in(n.value, idx, facts):
             return "dominating `key in mapping` test"
         # xs[i] with i the variable of `for i in range(len(xs))` (loop or comprehension) and xs not resized meanwhile
@@ -1393,10 +1402,19 @@ def a5(repo: Repo) -> RuleResult:
     # (2)-(4) decision table over the flags
     normal = T["normal"]
     nrows = 0
-    for vals in product((0, 1), repeat=len(FLAGS)):
+    from .pyflow import S as _Sstr
+
+    for vals, endian_v in product(product((0, 1), repeat=len(FLAGS)), ("both", "little", "big")):
         A = dict(zip(FLAGS, vals))
         for lintres in (0, 1):
-            repl = by_name(A, {"lint": lintres})
+            repl0 = by_name(A, {"lint": lintres})
+
+            def repl(a_: Any, _r0: Any = repl0, _ev: str = endian_v) -> Any:
+                # the value of --endian is one of its three choices
+                if a_[0] == "var" and a_[1] == "endian":
+                    return _Sstr(_ev)
+                return _r0(a_)
+
             feas = []
             undecided = None
             for p in normal:
@@ -1441,7 +1459,7 @@ def a5(repo: Repo) -> RuleResult:
                 continue
             if (not A["enable_optimize"]) and A["filter_messages"]:
                 if p.done != "exit" or n_render:
-                    bad("filter-needs-O", "no `fatal` guard for (-F given and -O absent) dominates render(): -F without -O is silently accepted", construct=f"flags {A}: {names}", witness="bitproto c x.bitproto -F Foo")
+                    bad("filter-needs-O", "no `fatal` guard for (-F given and -O absent) dominates render(): -F without -O is silently accepted" + (f" (with --endian {endian_v})" if endian_v != "both" else ""), construct=f"flags {A}, --endian {endian_v}: {names}", witness="bitproto c x.bitproto -F Foo" + (f" --endian {endian_v}" if endian_v != "both" else ""))
                 continue
             if n_render != 1 or p.done != "return":
                 bad("render-missing", f"with flags {A} the schema is not rendered exactly once ({names}, ends with {p.done})", construct=str(names))
